@@ -125,6 +125,27 @@ def _(xp, a, b):
     return dict(L=xp.sum(xp.where(np.array([[True, False, True], [False, True, True]]), a, b) * xp.maximum(a, b)))
 
 
+# ---- terminal ops whose VJP hands back (views of) the incoming gradient --------------------------------------
+@prog("terminal-concat-repeat", "pure", (2, 3))
+def _(xp, a):
+    return dict(L=xp.concatenate((a, a), axis=0))
+
+
+@prog("terminal-stack", "pure", (2, 3), (2, 3))
+def _(xp, a, b):
+    return dict(L=xp.stack((a, b), axis=0))
+
+
+@prog("terminal-reshape-transpose", "pure views", (2, 3))
+def _(xp, a):
+    return dict(L=xp.reshape(a, (3, 2)).T)
+
+
+@prog("terminal-getitem-twice", "pure views", (4,))
+def _(xp, a):
+    return dict(L=xp.concatenate((a[1:], a[:3])))
+
+
 # ---- views (no mutation) ---------------------------------------------------------------------------------
 @prog("view-slice", "pure views", (4,))
 def _(xp, a):
@@ -362,6 +383,48 @@ def _(xp, a, b):
     v.shape = (1, 6)
     v += b
     return dict(L=xp.sum(x * x) + xp.sum(w), x=x, v=v, w=w)
+
+
+# ---- generated family: every kind of read before a mutation x every kind of mutation ---------------------------
+_PRE = [
+    ("einsum-repeated", lambda xp, x: xp.einsum("ij,ij->", x, x)),
+    ("einsum-repeated3", lambda xp, x: xp.einsum("ij,ij,ij->i", x, x, x)),
+    ("einsum-repeated-mixed", lambda xp, x: xp.einsum("ij,kj->ik", x, x)),
+    ("einsum-view-operand", lambda xp, x: xp.einsum("i,i->", x[0], x[0])),
+    ("square-by-mul", lambda xp, x: x * x * x),
+    ("stack-repeated", lambda xp, x: xp.stack((x, x * 2.0, x))),
+    ("concatenate-repeated", lambda xp, x: xp.concatenate((x, x), axis=1)),
+    ("matmul-self", lambda xp, x: xp.matmul(x, x.T)),
+    ("where-self", lambda xp, x: xp.where(np.array([[True, False], [False, True]]), x, x * 3.0)),
+    ("maximum-self", lambda xp, x: xp.maximum(x, x * 0.5)),
+    ("sum-prod", lambda xp, x: xp.sum(x, axis=0) * xp.prod(x, axis=1)),
+    ("cumsum-cumprod", lambda xp, x: xp.cumsum(x, axis=1) + xp.cumprod(x, axis=0)),
+    ("adv-index-repeated", lambda xp, x: x[[0, 0, 1]]),
+    ("reshape-transpose-view", lambda xp, x: x.reshape(4)[::2] * x.T[0]),
+    ("mean-var", lambda xp, x: xp.mean(x) + xp.var(x, axis=0)),
+]
+_MUT = [
+    ("setitem", lambda xp, x, b: x.__setitem__((0, slice(None)), b)),
+    ("iadd", lambda xp, x, b: x.__iadd__(b)),
+    ("view-imul", lambda xp, x, b: x[:, 1].__imul__(b)),
+    ("out=", lambda xp, x, b: xp.multiply(x, b, out=x)),
+]
+
+
+def _mk(pre, mut):
+    def f(xp, a, b):
+        x = a * 1.0
+        y = pre(xp, x)
+        mut(xp, x, b)
+        z = pre(xp, x)
+        return dict(L=xp.sum(y) * 2.0 + xp.sum(z) + xp.sum(x * x), x=x)
+
+    return f
+
+
+for _pn, _pf in _PRE:
+    for _mn, _mf in _MUT:
+        P.append((f"gen/{_pn}/{_mn}", {"inplace", "generated"}, ((2, 2), (2,)), _mk(_pf, _mf)))
 
 
 def select(include=(), exclude=()):
